@@ -18,6 +18,7 @@ type VTreeOp struct {
 	Set   bool
 	Key   []byte
 	Value []byte
+	Noop  bool // Remove of a key that is not in the tree: leaves an IAVL tree (and its root) untouched
 }
 
 type VMockTree struct {
@@ -57,7 +58,7 @@ func (t *VMockTree) Set(key, value []byte) bool {
 }
 
 func (t *VMockTree) Remove(key []byte) ([]byte, bool) {
-	t.Trace = append(t.Trace, VTreeOp{Set: false, Key: key})
+	t.Trace = append(t.Trace, VTreeOp{Set: false, Key: key, Noop: t.find(key) < 0})
 	if i := t.find(key); i >= 0 {
 		v := t.Values[i]
 		t.Keys = append(t.Keys[:i:i], t.Keys[i+1:]...)
